@@ -43,6 +43,26 @@ pub fn run_op(line: &str) -> String {
     let a: Vec<&str> = it.collect();
     let n = |i: usize| -> usize { a[i].parse::<usize>().unwrap() };
     match op {
+        // ---------------------------------------------------------------- whole-domain tabulations (translator fallback)
+        // every Unicode scalar value through `Rank::try_from(char)` / `Suit::try_from(char)`: the accepted ones, "cp:index"
+        "tab_rank_chars" | "tab_suit_chars" => {
+            let mut v: Vec<String> = vec![];
+            for cp in 0u32..=0x10FFFF {
+                if let Some(ch) = char::from_u32(cp) {
+                    let r: Option<Option<usize>> = if op == "tab_rank_chars" {
+                        guarded(|| Rank::try_from(ch).ok().map(|r| rank_idx(&r)))
+                    } else {
+                        guarded(|| Suit::try_from(ch).ok().map(|r| suit_idx(&r)))
+                    };
+                    match r {
+                        None => v.push(format!("{}:panic", cp)),
+                        Some(Some(i)) => v.push(format!("{}:{}", cp, i)),
+                        Some(None) => {}
+                    }
+                }
+            }
+            v.join(",")
+        }
         // ---------------------------------------------------------------- C13
         "rank_u8" => format!("{}", u8::from(rank_of(n(0)))),
         "suit_u8" => format!("{}", u8::from(suit_of(n(0)))),
